@@ -864,6 +864,7 @@ class Lexer:
                         source=self.source,
                     )
                 )
+                self.start = self.pos
                 continue
 
             if kind == "RAW":
@@ -900,6 +901,7 @@ class Lexer:
                         source=self.source,
                     )
                 )
+                self.start = self.pos
                 continue
 
             if kind == "COMMENT_TAG":
